@@ -209,7 +209,31 @@ def run(chk):
                                  "replayed_states": st["states"], "replayed_transitions": st["tried"],
                                  "impl_ok": st["ok"], "impl_err_unchanged": st["err"], "impl_other": st["bad"],
                                  "by_call_kind": st["by_kind"]})
-        judge_replay(chk, cfgp, tracep, cfg, tag)
+        # TLC reads a replay file whole: judge big recordings (the thorough models: > 1 GB) in pieces, three at a time
+        CHUNK = 48 * 1024 * 1024
+        if os.path.getsize(tracep) <= CHUNK:
+            judge_replay(chk, cfgp, tracep, cfg, tag)
+        else:
+            pieces, cur, size = [], None, 0
+            with open(tracep) as f:
+                for line in f:
+                    if cur is None or size > CHUNK:
+                        if cur:
+                            cur.close()
+                        pieces.append(chk.path("%s.replay.piece%d.ndjson" % (tag, len(pieces))))
+                        cur, size = open(pieces[-1], "w"), 0
+                    cur.write(line)
+                    size += len(line)
+            if cur:
+                cur.close()
+            os.remove(tracep)
+            chk.note("B1_%s_replay_pieces" % tag, len(pieces))
+            from concurrent.futures import ThreadPoolExecutor
+            with ThreadPoolExecutor(max_workers=3) as ex:
+                for fut in [ex.submit(judge_replay, chk, cfgp, pc, cfg, tag) for pc in pieces]:
+                    fut.result()
+            for pc in pieces:
+                os.remove(pc)
         if paths:
             p = paths[len(paths) // 2]
             feat = cfg["feats"][p["f"] - 1]
